@@ -135,8 +135,50 @@ func isStickyStore(in ssa.Instruction, recv ssa.Value, sticky string) bool {
 }
 
 func isStickyLoad(v ssa.Value, recv ssa.Value, sticky string) bool {
-	root, sel, ok := fieldLoad(v)
-	return ok && root == recv && sel == "."+sticky
+	return isStickyLoadD(v, recv, sticky, 0)
+}
+
+// isStickyLoadD: a load of recv.<sticky>, or the error result of a method called on recv whose every return hands
+// back such a load of its own receiver (ensureHeader() error { ...; return z.err }): testing that result is
+// testing the sticky field as it stood when the helper returned.
+func isStickyLoadD(v ssa.Value, recv ssa.Value, sticky string, depth int) bool {
+	if root, sel, ok := fieldLoad(v); ok {
+		return root == recv && sel == "."+sticky
+	}
+	if depth > 2 || v == nil {
+		return false
+	}
+	var call *ssa.Call
+	idx := 0
+	switch x := v.(type) {
+	case *ssa.Call:
+		call = x
+	case *ssa.Extract:
+		if c, ok := x.Tuple.(*ssa.Call); ok {
+			call, idx = c, x.Index
+		}
+	}
+	if call == nil || !isErrorType(v.Type()) {
+		return false
+	}
+	h := call.Common().StaticCallee()
+	if h == nil || h.Blocks == nil || h.Signature.Recv() == nil || len(call.Common().Args) == 0 || call.Common().Args[0] != recv {
+		return false
+	}
+	n := 0
+	for _, b := range h.Blocks {
+		for _, in := range b.Instrs {
+			ret, ok := in.(*ssa.Return)
+			if !ok {
+				continue
+			}
+			if idx >= len(ret.Results) || !isStickyLoadD(ret.Results[idx], h.Params[0], sticky, depth+1) {
+				return false
+			}
+			n++
+		}
+	}
+	return n > 0
 }
 
 func ruleR14_1(p *Program, r *Report) {
@@ -234,12 +276,57 @@ func ruleR14_2(p *Program, r *Report) {
 					r.OK("R14.2", key, p.InstrPos(c), desc)
 				} else if why, ok := r14_2Exceptions[key]; ok && guardedByFalseField(c, recv, "wroteHeader") && setsFlagBeforeDst(p, c.Common().StaticCallee(), "wroteHeader") {
 					r.OK("R14.2", key, p.InstrPos(c), desc+" [exception: under !wroteHeader - "+why+"; the callee sets the flag before its first destination call]")
+				} else if h := c.Common().StaticCallee(); h != nil && r14_2HelperGuarded(p, tr, c, recv, 0) {
+					r.OK("R14.2", key, p.InstrPos(c), desc+" [inside the private helper "+h.Name()+": each of its destination calls is behind the sticky test or under !wroteHeader with the flag set first]")
 				} else {
 					r.Fail("R14.2", key, p.InstrPos(c), desc, "no dominating test of the sticky error: the destination can be touched again after a failure")
 				}
 			}
 		}
 	}
+}
+
+// r14_2HelperGuarded: c calls an unexported method on the same receiver (not one of the operations) in which every
+// destination call meets R14.2 itself: behind the nil edge of the sticky test, or the header write under !wroteHeader
+// whose callee sets the flag before touching the destination, or again such a helper.
+func r14_2HelperGuarded(p *Program, tr *TypeRole, c ssa.CallInstruction, recv ssa.Value, depth int) bool {
+	h := c.Common().StaticCallee()
+	if depth > 2 || h == nil || h.Blocks == nil || h.Signature.Recv() == nil || h.Object() == nil || h.Object().Exported() || len(c.Common().Args) == 0 || c.Common().Args[0] != recv {
+		return false
+	}
+	for _, opn := range []string{"Write", "Flush", "Close"} {
+		if tr.Ops[opn] == h {
+			return false
+		}
+	}
+	hrecv := ssa.Value(h.Params[0])
+	n := 0
+	for _, c2 := range allCalls(h) {
+		if ok, _ := p.isDstCall(c2); !ok {
+			continue
+		}
+		n++
+		guarded := false
+		for _, f := range dominatingFacts(c2) {
+			if f.Op == token.EQL && ((isStickyLoad(f.X, hrecv, tr.Sticky) && isNil(f.Y)) || (f.Y != nil && isStickyLoad(f.Y, hrecv, tr.Sticky) && isNil(f.X))) {
+				guarded = true
+			}
+		}
+		if guarded {
+			continue
+		}
+		if g := c2.Common().StaticCallee(); g != nil {
+			key := "(*" + tr.Named.Obj().Pkg().Name() + "." + tr.Named.Obj().Name() + ").Write|" + shortFn(g)
+			if _, ok := r14_2Exceptions[key]; ok && guardedByFalseField(c2, hrecv, "wroteHeader") && setsFlagBeforeDst(p, g, "wroteHeader") {
+				continue
+			}
+		}
+		if r14_2HelperGuarded(p, tr, c2, hrecv, depth+1) {
+			continue
+		}
+		return false
+	}
+	return n > 0
 }
 
 // guardedByFalseField: call is dominated by the edge on which recv.<field> is false.
